@@ -65,6 +65,7 @@ props! {
     "C12" => c12,
     "C13" => c13,
     "C14" => c14,
+    "C15" => c15,
     "C16" => c16,
     "C17" => c17,
     "C18" => c18,
